@@ -646,6 +646,9 @@ func codecs(c *vm.Ctx, r *vm.Rand, G, rounds int) {
 				}
 				th := []int{-1, 0, 32, 256}[lr.Intn(4)]
 				n := []int{0, 5, 31, 32, 33, 300, 2000}[lr.Intn(7)]
+				if lr.Intn(40) == 0 {
+					n = []int{5000, 70000}[lr.Intn(2)] // beyond what a fresh pooled buffer holds: the buffer grows, then goes back
+				}
 				want := payloadFor(g, seq, n)
 				w := &spyWriter{share: share}
 				p := pk.Packet{ID: int32(g*1000 + seq%1000), Data: append([]byte{}, want...)}
